@@ -28,6 +28,25 @@ CLAIMED.update({
     note=ASDU_NOTE, technique="Lean 4 proof (invariant by induction over operation lists) + differential correspondence", design="6 C12"),
 })
 
+SRV_NOTE = ("Trusted: Lean kernel + standard axioms; hand-written model Iec.Srv104 / Iec.KWindow / Iec.Queues of the CS104 server (threadless mode) tied to "
+            "cs104_slave.c by the differential run of this check through the simulated HAL (observations AND dumps of the real structures after every "
+            "operation) plus the model-free oracle flags of the harness. Not covered: threaded server loop, client role (cs104_connection.c), TLS, typed command "
+            "dispatch (C09). The repaired behaviours (fix: commits in /repo) are what the model describes.")
+CLAIMED.update({
+ "C03": dict(text="Lean theorems on the server model: 15-bit sequence codec inverse for every value (seq_codec); sendI_spec: written I-frame is well-formed for every ASDU <= 249, carries N(S)=V(S), N(R)=V(R), V(S) advances by one mod 32768 iff the write succeeded (so the wrap is inside the step law); sendS_spec; the four U-frames. Tie: differential over ~25k ops per run with counters preset around the wrap + model-free wire oracle (framing and N(S) continuity of everything written).",
+             note=SRV_NOTE + " Partial: client role by no theorem; N(R)=accepted count follows from C05 delivery (V(R) advance) and the step law, no separate history theorem.", technique="Lean 4 proof (step laws, omega on the bit codec) + differential correspondence", design="6 C03"),
+ "C04": dict(text="Lean theorems on the k-window model (shared by both roles' code shape): checkSeq_spec - for every window alignment to the wrap, every occupancy, every k and every N(R) the acceptance test of checkSequenceNumber equals the modular window test, acceptance releases exactly the acknowledged prefix and re-establishes the invariant, rejection changes nothing; push_bound (never more than k outstanding, every send is gated by isSentBufferFull); server_full_defers. Tie: differential with real k-buffer ring dumps after every op + window-bound oracle.",
+             note=SRV_NOTE + " The client copy of checkSequenceNumber has the same shape but is not yet tied by its own harness (partial).", technique="Lean 4 proof (invariant + induction over the release loop, omega mod 32768) + differential correspondence", design="6 C04"),
+ "C05": dict(text="Lean theorems: drain_eq_parse / segmentation_independence - for every octet stream and every split into reads (any chunk sizes, empty polls) the receive loop hands over exactly the frames of the stream, same close decision, same incomplete tail (refinement to a stream specification by induction, step lemma recvStep_spec); delivery - on a started connection an I-frame is handed to the application exactly once iff N(S)=V(R) (and N(R), length checks), otherwise nothing is delivered and the connection closes; not_started_closes. Tie: differential with every frame delivered coalesced, dribbled octet by octet or cut at a random position.",
+             note=SRV_NOTE + " Server copy of receiveMessage (the client copy is textually the same algorithm; not separately tied).", technique="Lean 4 proof (refinement of the reassembly loop to a stream parser) + differential correspondence", design="6 C05"),
+ "C07": dict(text="Lean theorems (step properties for every server state): startdt_answered, testfr_answered, sframe_stopped_closes, not_started_closes (I-frame), send_requires_started / periodic_not_started (I-frames only while STARTED). STOPDT sequence (S-frame first, con only without unconfirmed events) is in the model and differentially compared, theorem not yet written. Tie: differential incl. U-frames in every state.",
+             note=SRV_NOTE + " Partial: STOPDT-con theorem missing; history-level statement (every I-frame lies between a STARTDT con and the next STOPDT act) follows from the step laws but is not stated as one theorem.", technique="Lean 4 proof (step laws of handleMessage) + differential correspondence", design="6 C07"),
+ "C11": dict(text="Lean theorems on a virtual clock: ack_after_w / ack_at_w (fewer than w unacknowledged after every message; S-frame written at w), t2_ack / t2_not_before, t1_close_iff (closed by the I-frame timer exactly when the oldest unacknowledged I-frame is t1 old, not before) and t1_empty, t3_testfr; all parameters read from the configuration record. Tie: differential with PRNG parameter sets and ticks of 0..4400 ms around the deadlines.",
+             note=SRV_NOTE + " Partial: client role not modelled; 'acknowledge before STOPDT con' is in the model (handleMessage) and differentially compared without its own theorem; lateness bounded by the tick period.", technique="Lean 4 proof (step laws of handleTimeouts phases) + differential correspondence", design="6 C11"),
+ "C13": dict(text="Lean theorems (step properties): direct_only_if_nothing_parked (a reply is written at once only when no earlier reply is parked - the repaired sendASDUInternal), parked_or_refused, responses_before_events. FIFO order inside the rings: differential (queue contents dumped and compared after every op) + model-free order oracle (a reply transmitted while earlier replies are parked).",
+             note=SRV_NOTE + " Partial: no refinement proof of the two ring buffers to lists yet, so enqueue-order = transmit-order rests on the differential tie.", technique="Lean 4 proof (step laws) + differential correspondence + order oracle", design="6 C13"),
+})
+
 NOT_YET = "not claimed yet in this round: the Lean model/theorems and the correspondence harness for this property are still being built (see DESIGN.md section 10 for the order); no other technique is substituted"
 
 checks = []
